@@ -21,6 +21,10 @@ DEFAULT_QUALNAMES = ('PersistedRDD.compute', 'PartitionwiseSampledRDD.compute')
 DEFAULT_FILES = ('pysparkling/rdd.py',)
 
 
+class SchedulingDeadlock(RuntimeError):
+    pass
+
+
 class _Worker:
     def __init__(self, pool, tid, func, item):
         self.pool = pool
@@ -65,18 +69,25 @@ class _Worker:
     # -- runs in the driver thread ------------------------------------------------------------
     def start(self):
         self.thread.start()
-        self.parked.acquire()
+        self._wait()
 
     def grant(self):
         self.go.release()
-        self.parked.acquire()
+        self._wait()
+
+    def _wait(self):
+        # a task that neither parks nor finishes is blocked on something another (parked) task holds
+        if not self.parked.acquire(timeout=self.pool.patience):
+            raise SchedulingDeadlock(f'task {self.tid} neither reached a traced line nor finished '
+                                     f'within {self.pool.patience} s (last line: {self.at})')
 
 
 class SchedPool:
     """``map(func, iterable)`` runs the tasks under ``schedule``; ``jobs`` collects, per map() call, the list
     of events ``(task, (qualname, line text))`` in the order in which the lines were granted."""
 
-    def __init__(self, schedule=(), qualnames=DEFAULT_QUALNAMES, files=DEFAULT_FILES, schedules=None):
+    def __init__(self, schedule=(), qualnames=DEFAULT_QUALNAMES, files=DEFAULT_FILES, schedules=None, patience=120.0):
+        self.patience = patience
         self.qualnames = frozenset(qualnames)
         self.files = tuple(files)
         # `schedules`: one schedule per successive map() call; `schedule` is used when that list is exhausted
